@@ -1434,6 +1434,7 @@ func (r *Reader) searchStreams(ctx context.Context, result *resultData, subQuery
 				break
 			}
 		}
+		return nil
 	}
 
 	// all query parts have lookups, build a map of stream indexes to active query parts
